@@ -8,16 +8,20 @@ package gogen
 // Natively the same operations run on two goroutines under the race detector.
 
 import (
+	"bytes"
 	"go/ast"
 	"go/constant"
+	"go/parser"
 	"go/token"
 	"go/types"
+	"strings"
 	"sync"
 
 	"github.com/goplus/gogen/internal/vp"
 )
 
-var verifC18Ops = []string{"newpkg", "constop", "member", "literals", "underscore", "parenexpr", "closure", "zero", "typeast", "builtinmethod", "switch", "labels", "compare", "overload"}
+var verifC18Ops = []string{"newpkg", "constop", "member", "literals", "underscore", "parenexpr", "closure", "zero", "typeast", "builtinmethod", "switch", "labels", "compare", "overload",
+	"anymember", "inlineclosure", "autonames", "rtfile0", "rtfile1", "rtfile2", "rtfile3", "rtfile4", "rtfile5", "rtfile6", "rtfile7", "rtbody"}
 
 func verifC18Op(kind string) {
 	pkg := verifNewPkg()
@@ -81,6 +85,33 @@ func verifC18Op(kind string) {
 		ComparableTo(pkg, a, b)
 		AssignableTo(pkg, tint, TyEmptyInterface)
 		ConvertibleTo(pkg, tint, types.Typ[types.String])
+	case "anymember": // member access / string-key indexing on an any value needs generated names
+		cb := pkg.NewFunc(nil, "f", nil, nil, false).BodyStart(pkg)
+		vp.Try(func() { cb.Val(verifNonConst("z", TyEmptyInterface)).MemberVal("fld", 0).EndStmt() })
+		vp.Try(func() { cb.Val(verifNonConst("z", TyEmptyInterface)).Val("k").Index(1, 0).EndStmt() })
+		vp.Try(func() { cb.Val(verifNonConst("z", TyEmptyInterface)).MemberRef("fld").Val(1).Assign(1).EndStmt() })
+		vp.Try(func() { cb.End() })
+	case "inlineclosure":
+		ret := types.NewParam(token.NoPos, pkg.Types, "ret", tint)
+		sig := types.NewSignatureType(nil, nil, nil, nil, types.NewTuple(ret), false)
+		cb := pkg.NewFunc(nil, "f", nil, nil, false).BodyStart(pkg)
+		vp.Try(func() {
+			cb.DefineVarStart(0, "n").CallInlineClosureStart(sig, 0, false).Val(1).Return(1).End().EndInit(1).End()
+		})
+	case "autonames":
+		for i := 0; i < 12; i++ {
+			pkg.autoName()
+		}
+	case "rtfile0", "rtfile1", "rtfile2", "rtfile3", "rtfile4", "rtfile5", "rtfile6", "rtfile7":
+		g := &verifGen{focus: -1}
+		verifC18Build("package p\n\n" + verifDeclFile(int(kind[6]-'0'), g))
+	case "rtbody":
+		g := &verifGen{focus: -1}
+		body := ""
+		for _, tmpl := range []int{1, 11, 21, 26, 31, 34, 36, 37, 42, 45, 48} {
+			body += "{\n" + g.stmtWith(tmpl, 2) + "\n}\n"
+		}
+		verifC18Build(strings.TrimPrefix(verifRTHeader, "package p\n") + "\nfunc body() {\n" + body + "}\n")
 	case "overload":
 		sig := types.NewSignatureType(nil, nil, nil, types.NewTuple(types.NewParam(token.NoPos, pkg.Types, "a", tint)), nil, false)
 		f0 := types.NewFunc(token.NoPos, pkg.Types, "f__0", sig)
@@ -88,6 +119,26 @@ func verifC18Op(kind string) {
 		cb := pkg.CB()
 		cb.Val(ov).Val(1).Call(1)
 		cb.InternalStack().Pop()
+	}
+}
+
+// verifC18Build compiles a whole file through the front end and writes it out.
+func verifC18Build(body string) {
+	src := body
+	if !strings.HasPrefix(src, "package") {
+		src = "package p\n\n" + body
+	}
+	f, err := parser.ParseFile(token.NewFileSet(), "p.go", src, 0)
+	if err != nil {
+		panic(err)
+	}
+	conf := &Config{Importer: verifImporter{}, HandleErr: func(err error) { panic(err) }}
+	pkg := NewPackage("example.com/p", "p", conf)
+	fe := &verifFE{pkg: pkg, labels: map[string]*Label{}}
+	fe.file(f)
+	var out bytes.Buffer
+	if err := WriteTo(&out, pkg); err != nil {
+		panic(err)
 	}
 }
 
